@@ -54,6 +54,7 @@ COOKIE_FORMS = [
     "\x0c# coding: %s",
     "# first\x0cline\x1c\n# coding: %s",
     "#!/bin/sh \x0b\x1d\n#  vim: fileencoding=%s",
+    "\n# -*- coding: %s -*-",
 ]
 
 
@@ -195,7 +196,7 @@ class ByteStoreEngine(Engine):
                 "edit": rng.choice([3, 6]), "file_write": rng.choice([1, 3]), "undo": rng.choice([1, 3]),
                 "redo": rng.choice([1, 2]), "reopen": rng.choice([0, 1, 2]), "flip": rng.choice([0, 1, 2]),
                 "fail": rng.choice([0, 1, 2]), "refactor": rng.choice([0, 2]), "create": rng.choice([0, 1]),
-                "unencodable": rng.choice([0, 1]), "bytes_write": rng.choice([0, 0, 1]),
+                "unencodable": rng.choice([0, 1]), "bytes_write": rng.choice([0, 0, 1]), "recode": rng.choice([0, 0, 1]),
             },
         }
         init = []
@@ -233,6 +234,13 @@ class ByteStoreEngine(Engine):
                 new = edit_of(rng, texts[p], tuple(codecs[p])) if rng.random() < 0.7 else gen_store_text(rng, tuple(codecs[p]))
                 steps.append({"op": "file_write", "path": p, "text": new, "held": held, "id": nid})
                 texts[p] = new
+            elif k == "recode":
+                # an edit that changes the file's own coding line (adds, removes or replaces it)
+                ncodec = rng.choice(CODECS)
+                ntext = gen_store_text(rng, ncodec, allow_empty=False)
+                steps.append({"op": "edit", "path": p, "text": ntext, "held": held, "id": nid, "recode": True})
+                codecs[p] = list(ncodec)
+                texts[p] = ntext
             elif k == "bytes_write":
                 # contents handed over as bytes are written verbatim (possibly another newline convention)
                 codec = tuple(codecs[p])
